@@ -35,6 +35,8 @@ pub struct Pipe {
     pub(crate) last_ready: u64,
     /// (virtual time, total bytes written so far) per write call
     pub write_log: Vec<(u64, u64)>,
+    /// fault: the byte at this stream offset (counted in bytes read) is XORed with the mask on its way to the reader
+    pub flip: Option<(u64, u8)>,
 }
 
 impl Pipe {
@@ -53,6 +55,7 @@ impl Pipe {
             wr_waker: None,
             last_ready: 0,
             write_log: Vec::new(),
+            flip: None,
         }
     }
     pub(crate) fn available(&self, now: u64) -> usize {
@@ -88,7 +91,13 @@ impl Pipe {
             let (_, c) = self.chunks.front_mut().expect("pipe underflow");
             while left > 0 {
                 match c.pop_front() {
-                    Some(b) => {
+                    Some(mut b) => {
+                        if let Some((at, mask)) = self.flip {
+                            if self.total_read + (n - left) as u64 == at {
+                                b ^= mask;
+                                self.flip = None;
+                            }
+                        }
                         out.push(b);
                         left -= 1;
                     }
